@@ -10,7 +10,7 @@ import z3
 from pyvc.contract import FunctionContract, Lemma, VC, Req, ForAllInts
 from pyvc.interp import LoopSpec
 from pyvc.sym import And, Or, Not, Implies, If, Eq, compare, smax, smin, is_sym, Sym, lift, as_real_term, as_int_term, INF, PyRaise
-from pyvc.values import SymSeq
+from pyvc.values import SymSeq, Obj
 
 PROPERTY_ID = "C07"
 LEVEL = "proof"
@@ -237,8 +237,294 @@ class ControlVariate(Lemma):
         return (bool(bad), {"x": x.tolist(), "y": y.tolist(), "price_x": px, "adjusted": res.tolist(), "expected": want.tolist()})
 
 
-UNITS = [EnginePrice(), PriceAndError(), ControlVariate()]
+class ControlVariate2(Lemma):
+    """ControlVariates.helper_compute_coefficients, TWO controls, n samples (real body, np.cov / np.linalg.inv models).
+    Route analysis by z3 per path: the code may fall back to b* = 0 only when a control has no sample variance or the
+    controls' covariance matrix is singular.  On the regression route the adjusted sample, its mean and its variance are
+    rational identities decided by sympy: adjusted = Y - b*.(X - prices) with Sigma_x b* = sigma_xy (Cramer), mean =
+    mean(Y) - b*.(mean(X) - prices), variance = var(Y) - mean((b*.(X - mean X))^2) <= var(Y)."""
+    prop = "C07"
+    cases = (3,)
+
+    def __init__(self):
+        self.name = "property:control-variate-two-controls"
+
+    def prove(self, vc, n):
+        import sympy as sp
+        nm = f"{self.name}[n={n}]"
+        xs = vc.reals("x", 2 * n)
+        x = np.empty((n, 2), dtype=object)
+        for i in range(n):
+            x[i, 0], x[i, 1] = xs[2 * i], xs[2 * i + 1]
+        y = np.array(vc.reals("y", n), dtype=object)
+        p = np.array(vc.reals("price_x", 2), dtype=object)
+        f = vc.interp.get_function("rpylib.product.product:ControlVariates.helper_compute_coefficients")
+        res = vc.interp.call(f, [], dict(x=x, y=y, prices=p))
+        res = list(np.ravel(np.asarray(res, dtype=object)))
+        vc.check(nm + "::length", len(res) == n)
+        m0, m1, my = sum(x[:, 0], 0) / n, sum(x[:, 1], 0) / n, sum(y, 0) / n
+        S00 = sum(((a - m0) * (a - m0) for a in x[:, 0]), 0) / n
+        S11 = sum(((a - m1) * (a - m1) for a in x[:, 1]), 0) / n
+        S01 = sum(((a - m0) * (b - m1) for a, b in zip(x[:, 0], x[:, 1])), 0) / n
+        s0 = sum(((a - m0) * (b - my) for a, b in zip(x[:, 0], y)), 0) / n
+        s1 = sum(((a - m1) * (b - my) for a, b in zip(x[:, 1], y)), 0) / n
+        det = S00 * S11 - S01 * S01
+        tiny = Sym(z3.Q(1, 10 ** 12), "r")
+        fallback = all(z3.is_true(z3.simplify(as_real_term(lift(r)) == as_real_term(lift(yy)))) for r, yy in zip(res, y))
+        if fallback:
+            # b* = 0 was used: with non-degenerate controls the textbook adjustment b*.(X_i - price) must then vanish
+            b0n, b1n = s0 * S11 - s1 * S01, s1 * S00 - s0 * S01          # Cramer numerators of b*
+            nondeg = And(S00 >= tiny, S11 >= tiny, det != 0)
+            vc.check(nm + "::zero-coefficient-only-when-the-regression-adjustment-vanishes-or-the-controls-are-degenerate",
+                     Implies(nondeg, And(*[b0n * (x[i, 0] - p[0]) + b1n * (x[i, 1] - p[1]) == 0 for i in range(n)])))
+            return
+        vc.cover(nm + "::regression-route")
+        X = [[vc.sp(x[i, j]) for j in range(2)] for i in range(n)]
+        Y = [vc.sp(v) for v in y]
+        P = [vc.sp(v) for v in p]
+        R = [vc.sp(r) for r in res]
+        M = [sum(X[i][j] for i in range(n)) / n for j in range(2)]
+        MY = sum(Y) / n
+        C = [[sum((X[i][a] - M[a]) * (X[i][b] - M[b]) for i in range(n)) / n for b in range(2)] for a in range(2)]
+        c = [sum((X[i][a] - M[a]) * (Y[i] - MY) for i in range(n)) / n for a in range(2)]
+        D = C[0][0] * C[1][1] - C[0][1] * C[1][0]
+        b = [(c[0] * C[1][1] - c[1] * C[0][1]) / D, (c[1] * C[0][0] - c[0] * C[1][0]) / D]
+        syms = sorted(set().union(*[e.free_symbols for e in R]), key=str)
+        samp = lambda rng: {s_: rng.uniform(-2.0, 2.0) for s_ in syms}
+        num = lambda e: (lambda: sp.expand(sp.fraction(sp.together(e))[0]))      # rational identity <=> numerator expands to 0
+        want = [Y[i] - sum(b[j] * (X[i][j] - P[j]) for j in range(2)) for i in range(n)]
+        for i in range(n):
+            vc.check_zero(nm + f"::adjusted-sample-{i}-is-Y-minus-bstar-times-(X-price)", num(R[i] - want[i]), samp)
+        for a in range(2):
+            vc.check_zero(nm + f"::bstar-solves-the-normal-equation-{a}", num(sum(C[a][j] * b[j] for j in range(2)) - c[a]), samp)
+        # for ANY coefficient vector beta: mean and variance of Y - beta.(X - price); with the normal equations the last term
+        # vanishes, so variance = var(Y) - mean((bstar.(X - mean X))^2) <= var(Y)
+        be = [sp.Symbol("beta0", real=True), sp.Symbol("beta1", real=True)]
+        A = [Y[i] - sum(be[j] * (X[i][j] - P[j]) for j in range(2)) for i in range(n)]
+        ma = sum(A) / n
+        samp2 = lambda rng: {**samp(rng), be[0]: rng.uniform(-2, 2), be[1]: rng.uniform(-2, 2)}
+        vc.check_zero(nm + "::mean-of-adjusted-sample", num(ma - (MY - sum(be[j] * (M[j] - P[j]) for j in range(2)))), samp2)
+        va = sum((r - ma) ** 2 for r in A) / n
+        vy = sum((v - MY) ** 2 for v in Y) / n
+        explained = sum((sum(be[j] * (X[i][j] - M[j]) for j in range(2))) ** 2 for i in range(n)) / n     # a mean of squares: >= 0
+        defect = sum(be[a] * (c[a] - sum(C[a][j] * be[j] for j in range(2))) for a in range(2))
+        vc.check_zero(nm + "::variance-is-raw-variance-minus-a-mean-of-squares-given-the-normal-equations", num(va - (vy - explained) + 2 * defect), samp2)
+
+    def replay(self, model, clause, n):
+        from rpylib.product.product import ControlVariates
+        from contracts.std_harness import textbook_cv
+        def f(k, dflt):
+            if isinstance(model.get(k), list):
+                return [float(v["float"]) if isinstance(v, dict) else float(v) for v in model[k]]
+            if f"{k}_0" in model:        # a point found by the analytic back end: one entry per symbol
+                return [float(model.get(f"{k}_{i}", dflt[i])) for i in range(len(dflt))]
+            return dflt
+        xs = f("x", [1.0, 0.5, -1.0, 0.25, 0.0, 2.0, 0.7, -0.3][: 2 * n])
+        x = np.array(xs[: 2 * n]).reshape(n, 2)
+        y = np.array(f("y", [2.0, 1.0, 5.0, 0.5][:n]))
+        px = np.array(f("price_x", [0.3, -0.2]))
+        res = np.ravel(ControlVariates.helper_compute_coefficients(x=x, y=y, prices=px))
+        want = textbook_cv(y, x, px)
+        bad = res.shape != want.shape or not np.allclose(res, want, rtol=1e-8, atol=1e-10) or res.var() > y.var() * (1 + 1e-10) + 1e-14
+        return (bool(bad), {"x": x.tolist(), "y": y.tolist(), "prices": px.tolist(), "adjusted": res.tolist(), "textbook": want.tolist()})
+
+
+class ComputeCoefficients(FunctionContract):
+    """ControlVariates.compute_coefficients (real body; helper_compute_coefficients replaced by its recorded call): for every
+    payoff component k the helper receives the n x c matrix of that component's control samples, that component's payoff
+    samples and the vector (price of control j for component k)_j, and its result becomes column k of the adjusted
+    statistics; nothing else is written."""
+    prop = "C07"
+    target = "rpylib.product.product:ControlVariates.compute_coefficients"
+    name = "ControlVariates.compute_coefficients"
+    cases = tuple((c, d, kind) for c in (1, 2) for d in (1, 2) for kind in ("scalar-prices", "vector-prices") if not (kind == "scalar-prices" and d > 1))
+    N = 2
+
+    def configure(self, interp):
+        from pyvc import ctx
+
+        def helper(it, f, b):
+            g = ctx.PATH.ghost
+            k = len(g.setdefault("helper_calls", []))
+            out = np.array([ctx.PATH.fresh(f"adj{k}", "r") for _ in range(self.N)], dtype=object)
+            g["helper_calls"].append((b["x"], b["y"], b["prices"], out))
+            return out
+        interp.hooks["rpylib.product.product:ControlVariates.helper_compute_coefficients"] = helper
+
+    def setup(self, vc, case):
+        c, d, kind = case
+        n = self.N
+        X = np.empty((n, c, d), dtype=object)
+        Y = np.empty((n, d), dtype=object)
+        for i in range(n):
+            for k in range(d):
+                Y[i, k] = vc.real(f"Y_{i}_{k}")
+                for j in range(c):
+                    X[i, j, k] = vc.real(f"X_{i}_{j}_{k}")
+        if kind == "scalar-prices":
+            prices = [vc.real(f"price_{j}") for j in range(c)]
+            pm = [[prices[j] for k in range(d)] for j in range(c)]
+        else:
+            prices = [np.array([vc.real(f"price_{j}_{k}") for k in range(d)], dtype=object) for j in range(c)]
+            pm = [[prices[j][k] for k in range(d)] for j in range(c)]
+        vc.ghost.update(X=X, Y=Y, pm=pm, case=case)
+        mk = lambda a: vc.obj(ST + "Statistic", stats=a)
+        adj = mk(np.array([[vc.real(f"old_{i}_{k}") for k in range(d)] for i in range(n)], dtype=object))
+        stats = vc.obj(ST + "MCStatistics", _payoff_statistics=mk(Y), _control_variates_statistics=mk(X), _payoff_statistics_with_cv=adj,
+                       _spot_underlying_statistics=vc.obj(ST + "NoStatistic"))
+        cv = vc.obj("rpylib.product.product:ControlVariates", prices=prices, nb_cvs=c, products=[None] * c)
+        return dict(self=cv, statistics=stats)
+
+    def ensures(self, result, self_=None, statistics=None):
+        from pyvc import ctx
+        g = ctx.PATH.ghost
+        c, d, kind = g["case"]
+        n = self.N
+        X, Y, pm = g["X"], g["Y"], g["pm"]
+        calls = g.get("helper_calls", [])
+        out = {"one-regression-per-payoff-component": len(calls) == d}
+        if len(calls) != d:
+            return out
+        adj = statistics.fields["_payoff_statistics_with_cv"].fields["stats"]
+        ok_shape = isinstance(adj, np.ndarray) and adj.shape == (n, d)
+        out["adjusted-statistics-has-one-row-per-path-and-one-column-per-component"] = ok_shape
+        for k, (x, y, pr, res) in enumerate(calls):
+            x, y = np.asarray(x, dtype=object), np.asarray(y, dtype=object)
+            prv = np.ravel(np.asarray(pr, dtype=object))
+            out[f"component{k}:control-samples-passed"] = (x.shape == (n, c)) and And(*[x[i, j] == X[i, j, k] for i in range(n) for j in range(c)])
+            out[f"component{k}:payoff-samples-passed"] = (y.shape == (n,)) and And(*[y[i] == Y[i, k] for i in range(n)])
+            out[f"component{k}:each-control-has-its-own-price"] = (prv.shape == (c,)) and And(*[prv[j] == pm[j][k] for j in range(c)])
+            if ok_shape:
+                out[f"component{k}:column-is-the-regression-residual"] = And(*[adj[i, k] == res[i] for i in range(n)])
+        out["raw-payoff-statistics-untouched"] = statistics.fields["_payoff_statistics"].fields["stats"] is Y
+        return out
+
+    def replay(self, model, clause, case):
+        from contracts.std_harness import run_schedule
+        c, d, kind = case
+        pr = run_schedule([25], dim=d, n_controls=c, scalar_prices=(kind == "scalar-prices"))
+        return (bool(pr), {"native_harness_problems": pr[:3], "controls": c, "payoff_dimension": d, "prices": kind})
+
+
+class EngineInitialisation(FunctionContract):
+    """Engine.initialisation(mc_paths, product), whatever an earlier price() call left in the engine: the statistics object
+    of the run is created by this call for exactly mc_paths paths (so no row of an earlier run can enter the mean), the path
+    manager is re-created, and the process pre-computation is asked for the same number of paths."""
+    prop = "C07"
+    target = EN + "Engine.initialisation"
+    name = "standard.Engine.initialisation"
+    cases = ("first-call", "after-an-earlier-run")
+
+    def configure(self, interp):
+        from pyvc import ctx
+        G = lambda: ctx.PATH.ghost
+
+        def create(it, f, b):
+            g = G()
+            o = Obj(it.get_class(ST + "MCStatistics"))
+            g.setdefault("created", []).append((o, b["mc_paths"], b["control_variates"], b["payoff_dimension"]))
+            return o
+        interp.hooks[ST + "create_mc_statistics"] = create
+        interp.hooks["rpylib.montecarlo.path:create_path"] = lambda it, f, b: G().setdefault("paths", []).append(object()) or G()["paths"][-1]
+
+        def pre(it, f, b):
+            G().setdefault("pre", []).append((b["mc_paths"], len(G().get("created", []))))
+        interp.hooks["rpylib.process.process:Process.pre_computation"] = pre
+        for fq in ("rpylib.process.process:Process.initialisation", "rpylib.montecarlo.configuration:Configuration.initialisation",
+                   "rpylib.product.product:Product.update", "rpylib.product.underlying:Underlying.check_consistency"):
+            interp.hooks[fq] = lambda it, f, b: None
+        interp.hooks["rpylib.process.process:Process.dimension"] = lambda it, f, b: 1
+
+    def setup(self, vc, case):
+        N = vc.int("mc_paths")
+        vc.assume(N >= 0)
+        g = vc.ghost
+        prior = None
+        if case == "after-an-earlier-run":
+            M = vc.int("earlier_mc_paths")
+            vc.assume(M >= 0)
+            st = lambda nm: vc.obj(ST + "Statistic", stats=vc.seq(nm, "r"))
+            pay = st("earlier_rows")
+            vc.assume(pay.fields["stats"].length == M)
+            prior = vc.obj(ST + "MCStatistics", _payoff_statistics=pay, _control_variates_statistics=vc.obj(ST + "NoStatistic"),
+                           _spot_underlying_statistics=vc.obj(ST + "NoStatistic"), _payoff_statistics_with_cv=st("earlier_adj"))
+        g.update(N=N, prior=prior)
+        ncv = vc.obj("rpylib.product.product:NoControlVariates")
+        cfg = vc.obj("rpylib.montecarlo.configuration:ConfigurationStandard", mc_paths=N, nb_of_processes=1, control_variates=ncv,
+                     activate_spot_statistics=False)
+        model = vc.obj("rpylib.model.model:Model")
+        proc = vc.obj("rpylib.process.process:Process", process_representation=None, model=model, deterministic_path=None)
+        vc.interp.hooks["rpylib.model.model:Model.dimension"] = lambda it, f, b: 1
+        eng = vc.obj(EN + "Engine", configuration=cfg, process=proc, path_manager=None if prior is None else object(), statistics=prior)
+        payoff = vc.obj("rpylib.product.payoff:Payoff")
+        product = vc.obj("rpylib.product.product:Product", maturity=vc.real("maturity"), payoff=payoff,
+                         payoff_underlying=vc.obj("rpylib.product.underlying:Underlying"))
+        return dict(self=eng, mc_paths=N, product=product)
+
+    def ensures(self, result, self_=None, mc_paths=None, product=None):
+        from pyvc import ctx
+        g = ctx.PATH.ghost
+        created = g.get("created", [])
+        pre = g.get("pre", [])
+        # the statistics the run will fill hold exactly mc_paths rows: created here for mc_paths paths, or (harmless re-use:
+        # every row is overwritten by the loop, see Engine.price) an earlier object of exactly that size
+        st = self_.fields["statistics"]
+        out = {"statistics-created-at-most-once-in-this-call": len(created) <= 1}
+        if len(created) == 1 and st is created[0][0]:
+            out["the-run's-statistics-hold-exactly-mc_paths-rows"] = created[0][1] == g["N"]
+        elif st is not None and st is g["prior"]:
+            out["the-run's-statistics-hold-exactly-mc_paths-rows"] = st.fields["_payoff_statistics"].fields["stats"].length == g["N"]
+        else:
+            out["the-run's-statistics-hold-exactly-mc_paths-rows"] = False
+        out["path-manager-re-created"] = len(g.get("paths", [])) == 1 and self_.fields["path_manager"] is g["paths"][-1]
+        out["pre-computation-for-the-same-number-of-paths"] = len(pre) == 1 and (pre[0][0] == g["N"])
+        return out
+
+    def replay(self, model, clause, case):
+        from contracts.std_harness import run_schedule
+        n = model.get("mc_paths") if isinstance(model.get("mc_paths"), int) else 7
+        m = model.get("earlier_mc_paths") if isinstance(model.get("earlier_mc_paths"), int) else n + 5
+        diff = max(-60, min(60, m - n))
+        n = max(2, min(n, 100))
+        m = max(2, n + diff)
+        sched = [n] if case == "first-call" else [m, n]
+        pr = run_schedule(sched)
+        return (bool(pr), {"schedule_of_price_calls_on_one_engine": sched, "native_harness_problems": pr[:3]})
+
+
+class StandardEngineBattery:
+    """bounded (native): the real standard Engine + MCPath + Product + ControlVariates + statistics on scripted paths;
+    repeated price() calls on one engine with growing / shrinking numbers of paths, 0-2 controls, scalar and vector strikes"""
+    name = "bounded:standard-engine-battery"
+    tier = "quick"
+    CONFIGS = [dict(schedule=[20]), dict(schedule=[1]), dict(schedule=[20, 30, 12]), dict(schedule=[25], n_controls=1), dict(schedule=[25, 10, 40], n_controls=2),
+               dict(schedule=[25], dim=2, n_controls=1), dict(schedule=[30, 8], dim=3, n_controls=2), dict(schedule=[30], n_controls=2, scalar_prices=False),
+               dict(schedule=[16], dim=2), dict(schedule=[12, 12], n_controls=1, correlated=False)]
+
+    def run(self, tier, seed):
+        from contracts.std_harness import run_schedule
+        viol, ev = [], 0
+        for kw in self.CONFIGS:
+            for sd in ((5, 11) if tier == "quick" else (5, 11, 23, 47, 101)):
+                ev += 1
+                try:
+                    pr = run_schedule(seed=sd, **kw)
+                except Exception as e:
+                    pr = [f"exception {type(e).__name__}: {e}"]
+                if pr and not viol:
+                    viol.append({"obligation": f"{self.name}::textbook-price-error-and-control-variates", "bounded": self.name, "witness": {"config": {**kw, "seed": sd}, "problems": pr[:3]}})
+        return {"name": self.name, "evaluations": ev, "distinct_nontrivial": ev, "violations": viol, "samples": [],
+                "bound": f"{len(self.CONFIGS)} scripted configurations x seeds; at most 40 paths per price() call, at most 3 calls per engine"}
+
+    def replay(self, rec):
+        from contracts.std_harness import run_schedule
+        kw = dict(rec.get("witness", {}).get("config", {}))
+        pr = run_schedule(**kw) if kw else []
+        return (bool(pr), {"problems": pr[:3]})
+
+
+UNITS = [EnginePrice(), EngineInitialisation(), PriceAndError(), ControlVariate(), ControlVariate2(), ComputeCoefficients()]
 ASSUMPTIONS = ["A1: floats are mathematical reals", "the payoff of a path is a function of the path (C17); simulate_one_path returns a fresh path per call",
                f"estimator algebra: every sample size n <= {N_SAMPLES} (symbolic values)"]
 TRUSTED_BASE = ["z3 5.1 (LRA/NRA + arrays)", "pyvc interpreter + numpy models (mean, std, cov, inv for 1x1/2x2)"]
-BOUNDED = []
+BOUNDED = [StandardEngineBattery()]
